@@ -66,31 +66,33 @@ func LoadFindings(verifDir string) (*FindingsFile, error) {
 // HARNESS_PANIC pseudo-violation (reported with exit code 2, never as a VIOLATION) and a
 // watchdog abort that the world did not handle into HARNESS_WATCHDOG.
 func SafeExec(w World, sc *Scenario, env *Env) (v *Violation) {
-	if w.ID() == "C18" {
-		return safeExec(w, sc, env) // the scheduler has its own no-progress detector
-	}
 	// The run executes on a goroutine of its own so that a library call that never returns
 	// (a lock that is never released, a receive nobody answers) becomes a verdict instead of
-	// a hung worker: no yield point reached for 20 s of real time.
+	// a hung or dead worker: no yield point reached, process-wide, for 20 s of real time
+	// (30 s for C18, whose scheduler has a 20 s detector of its own with a better message).
+	limit := 10
+	if w.ID() == "C18" {
+		limit = 15
+	}
 	done := make(chan *Violation, 1)
 	go func() { done <- safeExec(w, sc, env) }()
 	ticker := time.NewTicker(2 * time.Second)
 	defer ticker.Stop()
-	last, idle := atomic.LoadUint64(&env.yields), 0
+	last, idle := atomic.LoadUint64(&globalTick), 0
 	for {
 		select {
 		case v := <-done:
 			return v
 		case <-ticker.C:
-			cur := atomic.LoadUint64(&env.yields)
+			cur := atomic.LoadUint64(&globalTick)
 			if cur != last {
 				last, idle = cur, 0
 				continue
 			}
 			idle++
-			if idle >= 10 {
+			if idle >= limit {
 				return &Violation{Oracle: "call_never_returns", Step: -1, NoShrink: true,
-					Msg: fmt.Sprintf("the run reached no yield point for 20 s (after %d yield points): a call into the library blocks for ever (the goroutine is abandoned)", cur)}
+					Msg: fmt.Sprintf("the run reached no yield point for %d s (after %d yield points in this process): a call into the library blocks for ever (the goroutine is abandoned)", 2*limit, cur)}
 			}
 		}
 	}
@@ -159,6 +161,7 @@ func WorkerMain(prop, tier string, i, n int, out string, deadlineUnix int64, max
 		fmt.Fprintf(os.Stderr, "unknown property %s\n", prop)
 		return 2
 	}
+	WatchStdout()
 	base := baseSeed()
 	relax := relaxFromEnv()
 	st := NewStats()
@@ -223,6 +226,8 @@ func ReplayMain(prop, path string, quiet bool) int {
 		fmt.Fprintf(os.Stderr, "replay: %v\n", err)
 		return 2
 	}
+	out := os.Stdout // the real one: the library's view of os.Stdout is a scratch file from here on
+	WatchStdout()
 	st := NewStats()
 	var v *Violation
 	if h := rf.History; h != nil && h.Workers > 0 {
@@ -232,7 +237,7 @@ func ReplayMain(prop, path string, quiet bool) int {
 			sc := GenScenario(w, base, h.Tier, run)
 			env := NewEnv(st, relaxFromEnv(), sc.Seed)
 			if v = SafeExec(w, sc, env); v != nil {
-				fmt.Printf("history replay: run %d of the sequence %d, %d, ... %d violates\n", run, h.Worker, h.Worker+h.Workers, h.LastRun)
+				fmt.Fprintf(out, "history replay: run %d of the sequence %d, %d, ... %d violates\n", run, h.Worker, h.Worker+h.Workers, h.LastRun)
 				break
 			}
 		}
@@ -242,7 +247,7 @@ func ReplayMain(prop, path string, quiet bool) int {
 	}
 	if v == nil {
 		if !quiet {
-			fmt.Printf("replay %s: scenario passes (no violation)\n", path)
+			fmt.Fprintf(out, "replay %s: scenario passes (no violation)\n", path)
 		}
 		return 0
 	}
@@ -250,11 +255,11 @@ func ReplayMain(prop, path string, quiet bool) int {
 		fmt.Fprintf(os.Stderr, "replay %s: %s\n", path, v)
 		return 2
 	}
-	fmt.Printf("replay %s: %s\n", path, v)
+	fmt.Fprintf(out, "replay %s: %s\n", path, v)
 	if rf.Violation != nil && rf.Violation.Oracle != v.Oracle {
-		fmt.Printf("note: recorded oracle was %s\n", rf.Violation.Oracle)
+		fmt.Fprintf(out, "note: recorded oracle was %s\n", rf.Violation.Oracle)
 	}
-	fmt.Printf("VIOLATION property=%s replay=%s\n", prop, path)
+	fmt.Fprintf(out, "VIOLATION property=%s replay=%s\n", prop, path)
 	return 1
 }
 
